@@ -62,6 +62,9 @@ type Slice struct {
 	Off, Len, Cap int
 }
 
+// FloatV stands for floating point values, which the engine does not model.
+type FloatV struct{}
+
 type Struct []Val
 type Array []Val
 type Tuple []Val
@@ -177,6 +180,9 @@ func (in *Interp) zero(t types.Type) Val {
 		}
 		if u.Kind() == types.UntypedNil {
 			return nil
+		}
+		if u.Info()&(types.IsFloat|types.IsComplex) != 0 {
+			return FloatV{} // placeholder: any operation on it is unsupported
 		}
 		panic(pathEnd{"inconclusive", "zero of basic " + t.String()})
 	case *types.Pointer:
